@@ -950,6 +950,20 @@ def desugar_iter(body, qualname):
                % (var, mt.group(1), mt.group(2).strip(), var, mt.group(3).strip(), var, inner))
         body = body[:mt.start()] + rep + body[cb + 1:]
         applied.append({'rule': 'D7 for-in-take -> counted loop', 'receiver': mt.group(2).strip(), 'count': mt.group(3).strip()})
+    # ---- D8 : for (I, X) in E.enumerate() BLOCK  =>  let mut verif_enumK: usize = 0; for X in E { let I = verif_enumK; verif_enumK += 1; BLOCK }
+    # (std: enumerate "yields pairs (i, val), where i is the current index of iteration", starting at 0; the counter cannot overflow for an
+    # in-memory collection - the woven loop invariant `verif_enumK == it.index@` makes that an obligation, not an assumption)
+    n_enum = 0
+    while True:
+        mt = re.search(r'for\s+\(\s*([A-Za-z_][A-Za-z0-9_]*)\s*,\s*([A-Za-z_][A-Za-z0-9_]*)\s*\)\s+in\s+([^\n{]+?)\.enumerate\(\)\s*\{', body)
+        if not mt:
+            break
+        var = 'verif_enum%d' % n_enum
+        n_enum += 1
+        ob = mt.end() - 1
+        rep = 'let mut %s: usize = 0;\n    for %s in %s {\n        let %s = %s;\n        %s += 1;' % (var, mt.group(2), mt.group(3).strip(), mt.group(1), var, var)
+        body = body[:mt.start()] + rep + body[ob + 1:]
+        applied.append({'rule': 'D8 for-in-enumerate -> counted loop', 'receiver': mt.group(3).strip(), 'index': mt.group(1)})
     # ---- D1 : E.for_each(|PAT| BLOCK);
     while True:
         i = body.find('.for_each(')
